@@ -190,7 +190,20 @@ impl<'t, 'c> IrGen<'t, 'c> {
             }
             2 => {
                 self.k("String");
-                Expression::String(["", "ABC", "hello", "0xzz#1", "ü✓"][self.t.pick(5)].to_string())
+                if self.t.chance(1, 3) {
+                    // generated text: reference-like shapes (hex, '#', digits), lengths around the sizes
+                    // code cuts at (32-byte ids are 64 hex digits), 1..4-byte characters at any offset
+                    self.k("String:generated");
+                    const PIECES: [&str; 12] = ["0", "a", "ff", "#", "#0", "0x", "é", "€", "😀", "б", " ", "z"];
+                    let pad = [0usize, 1, 30, 31, 60, 61, 62, 63, 64, 65, 66, 130][self.t.pick(12)];
+                    let mut text = "a".repeat(pad);
+                    for _ in 0..self.t.pick(8) {
+                        text.push_str(PIECES[self.t.pick(PIECES.len())]);
+                    }
+                    Expression::String(text)
+                } else {
+                    Expression::String(["", "ABC", "hello", "0xzz#1", "ü✓"][self.t.pick(5)].to_string())
+                }
             }
             3 => {
                 self.k("Address");
